@@ -77,15 +77,13 @@ func depthFor(f family, init int) int {
 func units(tier string) []mc.Unit {
 	tags := []string{"FinalizedBlock", "SafeBlock", "LatestBlock"}
 	fams, inits := families(tier)
-	if v := os.Getenv("C15_FAMILY"); v != "" { // experiments only: "blocks,depth"
-		var f family
-		fmt.Sscanf(v, "%d,%d", &f.Blocks, &f.Depth)
-		fams = []family{f}
-	}
 	var us []mc.Unit
 	n := 0
 	for _, f := range fams {
 		for _, init := range inits {
+			if tier != "thorough" && f.Blocks == 4 && init != 0 {
+				continue // quick: the 4-block family only from the empty start state
+			}
 			for pat := 0; pat < 1<<f.Blocks; pat++ {
 				bits := make([]bool, f.Blocks)
 				for k := range bits {
@@ -213,6 +211,9 @@ func main() {
 			var fs []string
 			for _, f := range fams {
 				fs = append(fs, fmt.Sprintf("all 2^%d block-kind sequences to depth %d (start state 2: %d)", f.Blocks, f.Depth, f.Depth-1))
+			}
+			if tier != "thorough" {
+				fs = append(fs, "the 4-block family only from the empty start state")
 			}
 			return map[string]any{"families": fs, "start_states": len(inits), "updates_per_info_block": "1..2 (rotating)",
 				"tags": "FinalizedBlock, SafeBlock, LatestBlock (rotating)", "probe_ticks": probeTicks}
